@@ -389,7 +389,12 @@ class Host:
         elif entry == 'expand':
             if holder == 'Config':
                 inst = h.instance
-                thunk = lambda: emmet.expand(abbr, inst)
+                if op.get('pass_global') and glob is not None:
+                    # a host that passes its (current) global config to every call; documented to be
+                    # ignored when the call config is a ready Config
+                    thunk = lambda: emmet.expand(abbr, inst, glob)
+                else:
+                    thunk = lambda: emmet.expand(abbr, inst)
             elif glob is not None:
                 thunk = lambda: emmet.expand(abbr, h.user, glob)
             else:
